@@ -471,6 +471,15 @@ def trough_names(ctx) -> None:
         bad = None
         for conds, val in fv.alternatives(ks.ast.value, ks.id):
             cms = [to_cmp(r, pol) for r, pol in conds if isinstance(r, ast.Compare) and len(r.ops) == 1]
+            # a default name is chosen for every *filled* column without a name: the volume test is exactly `> 0`
+            if isinstance(val, ast.JoinedStr) or is_name(val, "name"):
+                vol_tests = [(r, pol) for r, pol in conds if isinstance(r, ast.Compare) and len(r.ops) == 1 and "initial_volumes" in key(r.left) and is_sym(r.left)
+                             and isinstance(r.comparators[0], ast.Constant)]
+                for r, pol in vol_tests:
+                    x = r.left
+                    cmv = to_cmp(r, pol)
+                    if cmv is not None and cmv != Cmp(Poly.symbol(x), ">") and cmv != Cmp(Poly.symbol(x), "!="):
+                        bad = f"default names are only given when `{cmv.pretty()[:60]}`: filled columns outside that range get no component name"
             if isinstance(val, ast.JoinedStr):
                 holes = [p for p in template_parts(val) if isinstance(p, Hole)]
                 dep = any(any(is_sym(s_, "idx") and s_.args[0].value == loopid for s_ in ast.walk(fv.res.resolve(h.expr, ks.id) if not any(is_sym(x) for x in ast.walk(h.expr)) else h.expr)) for h in holes)
